@@ -223,6 +223,14 @@ def prepost_hook(world, spec, oi, op, q, rec):
             for i, ch in enumerate(node["elems"]):
                 walk(ch, tuple(path) + (i,))
     walk(world.shadow, ())
+    # objects that were elements of the tree when the call started but were dropped by a smaller solved list size: they received
+    # pre_randomize as list elements; the property wants post_randomize on the same objects
+    for oid, (path, node) in (getattr(world, "pre_call_objs", None) or {}).items():
+        if oid in objs:
+            continue
+        cs = P.cls_spec(world.prog, node["cls"]) if node.get("cls") else None
+        if cs is not None and (cs.get("pre_randomize") is not None or cs.get("post_randomize") is not None):
+            objs[oid] = (path, node)
     ok_call = rec["exc"] is None
     counts = {}
     for ev in events:
@@ -240,7 +248,7 @@ def prepost_hook(world, spec, oi, op, q, rec):
             after = rec["summary"].get("after") or {}
             for fname, v in snap:
                 k = R.vname(tuple(path) + (fname,))
-                if ok_call and k in after and after[k] != v:
+                if ok_call and k in after and isinstance(after[k], int) and after[k] != v:
                     _add(rec, "hook_order", "post_randomize of %s saw %s=%d but the final value is %d" % (R.vname(path), fname, v, after[k]), op, oi)
     for oid, (path, node) in objs.items():
         cs = P.cls_spec(world.prog, node["cls"])
